@@ -185,6 +185,13 @@ func cleanEvent(m map[string]interface{}) map[string]interface{} {
 	return out
 }
 
+// connections a scenario leaves open on purpose (a peer that stays connected and silent): kept
+// referenced until the process ends, or the runtime's finalizer would close them
+var (
+	heldOpenMu sync.Mutex
+	heldOpen   []net.Conn
+)
+
 func runScript(m *memListener, sc scScenario, concurrent bool) scResult {
 	res := scResult{ID: sc.ID}
 	clients := map[string]*sclient{}
@@ -250,6 +257,14 @@ func runScript(m *memListener, sc scScenario, concurrent bool) scResult {
 				continue
 			}
 			res.Obs = append(res.Obs, c.recv(st))
+		case "leave":
+			if c := clients[st.C]; c != nil {
+				heldOpenMu.Lock()
+				heldOpen = append(heldOpen, c.conn)
+				heldOpenMu.Unlock()
+				delete(clients, st.C)
+			}
+			res.Obs = append(res.Obs, scObs{Op: "leave"})
 		case "close":
 			if c := clients[st.C]; c != nil {
 				c.conn.Close()
